@@ -4,6 +4,7 @@ import (
 	"context"
 
 	sdkerrors "cosmossdk.io/errors"
+	sdkmath "cosmossdk.io/math"
 	"google.golang.org/grpc/codes"
 	"google.golang.org/grpc/status"
 
@@ -62,6 +63,18 @@ func (k msgServer) Wager(goCtx context.Context, msg *types.MsgWager) (*types.Msg
 
 	if err := k.Keeper.betKeeper.Wager(ctx, bet, oddsMap); err != nil {
 		return nil, err
+	}
+
+	// the bet module charges the stake that was actually matched plus the fee, which can be less than the
+	// requested amount. The part of the subaccount deduction that was not taken must not stay in the main
+	// account (it may still be locked): send it back and undo the corresponding withdrawal.
+	mainAccBalanceAfter := k.Keeper.bankKeeper.GetBalance(ctx, subAccOwner, params.DefaultBondDenom)
+	notTaken := mainAccBalanceAfter.Amount.Sub(mainAccBalance.Amount.Sub(payload.MainaccDeductAmount))
+	if notTaken.IsPositive() {
+		if err := k.Keeper.returnToSubaccount(ctx, subAccAddr, subAccOwner,
+			sdkmath.MinInt(notTaken, payload.SubaccDeductAmount)); err != nil {
+			return nil, err
+		}
 	}
 
 	msg.EmitEvent(&ctx, payload.Msg, subAccOwner.String())
